@@ -227,7 +227,7 @@ def top(o):
 
 def table_eval(ctx, st, cases):
     """runs the cases on the implementation, compares with the model; returns (failures, disagreements)"""
-    impl = ctx.run_impl("impl_table.py", {"cases": cases}, timeout=3000)
+    impl = ctx.run_impl_cases("impl_table.py", cases, jobs=8, timeout=3000)
     terms, inputs, failures, all_obs = [], [], [], []
     for c, r in zip(cases, impl):
         inp = {"columns": c["cols"], "rows": len(c["rows"]), "create": c["create"], "ops": c["ops"]}
